@@ -2,6 +2,7 @@ from typing import TYPE_CHECKING
 
 from clikit.api.args.raw_args import RawArgs
 from clikit.api.resolver import ResolvedCommand
+from clikit.args.argv_args import ArgvArgs
 
 from .default_resolver import DefaultResolver
 from .resolve_result import ResolveResult
@@ -23,7 +24,9 @@ class HelpResolver(DefaultResolver):
         self, args, application
     ):  # type: (RawArgs, Application) -> ResolvedCommand
         if args.tokens and args.tokens[0] == self._help_command_name:
-            del args.tokens[0]
+            # The raw arguments belong to the caller: resolve a copy of them
+            # without the name of the help command instead of editing them
+            args = ArgvArgs([args.script_name or ""] + args.tokens[1:])
 
         return super(HelpResolver, self).resolve(args, application)
 
